@@ -6,7 +6,9 @@
   depth; each of them is what `parse` returns for its spanned text inside the minimal context, modulo the offset.
   For TYPE-SYSTEM definitions and extensions: `Definition.tdirs` / `.descs` (`Lemmas/SpanDirsTS.lean`) enumerate every
   directive (with its arguments) and every description — `span_reparse_directive_ts`, `span_reparse_argument_ts`,
-  `span_reparse_description_all`.
+  `span_reparse_description_all`; `Definition.fdefs` / `.ivdefs` / `.evdefs` every field definition, input value definition
+  (input fields, argument definitions) and enum value definition — `span_reparse_field_definition_all`,
+  `span_reparse_input_value_definition_all`, `span_reparse_enum_value_definition_all`.
 -/
 import PyGqlModel.Props.C02_reparse_ctx
 import PyGqlModel.Lemmas.SpanSels
@@ -101,6 +103,51 @@ theorem span_reparse_argument_ts (fl : Flags) (s : Text) (d : Document) (h : par
   obtain ⟨hs2, hwf2⟩ := directive_arguments true dir arg harg
   exact span_reparse_argument fl s d h x hx arg (hs2.trans hs) true (hwf2 (hwf (wf_of_mem fl s d h x hx))) a b hloc
 
+private theorem ts_flag (fl : Flags) (s : Text) (d : Document) (h : parseText fl s = some d) (x : Definition)
+    (hx : x ∈ d.definitions) (hts : isTypeSystem x = true) : fl.allowTypeSystem = true := by
+  obtain ⟨_, _, wf, _⟩ := (parse_text_result_partial fl s d).1 h
+  simp only [wfDocument, Bool.and_eq_true, List.all_eq_true] at wf
+  have := (wf.2 x hx).2
+  rw [hts] at this
+  simpa using this
+
+/-- every FIELD DEFINITION of every object / interface type definition or extension: `type A {σ⏎}` -/
+theorem span_reparse_field_definition_all (fl : Flags) (s : Text) (d : Document) (h : parseText fl s = some d) :
+    ∀ x ∈ d.definitions, ∀ fd ∈ x.fdefs, ∀ a b, fd.loc = some (a, b) →
+      a ≤ b ∧ b ≤ s.length ∧
+      parseText fl (K.type_ ++ [32, 65, 32, 123] ++ slice s a b ++ [10, 125]) =
+        some ⟨[.objectTypeDefinition none ⟨[65], some (5, 6)⟩ [] [] [(fd.mapLoc (locDown a)).mapLoc (locUp 8)]
+          (some (0, b - a + 4 + 6))], some (0, b - a + 4 + 6)⟩ := by
+  intro x hx fd hfd a b hloc
+  obtain ⟨hs, hwf⟩ := definition_fdefs fl x fd hfd
+  have hts : isTypeSystem x = true := by cases x <;> first | rfl | (simp [Definition.fdefs] at hfd)
+  exact span_reparse_field_definition fl (ts_flag fl s d h x hx hts) s d h x hx fd hs (hwf (wf_of_mem fl s d h x hx)) a b hloc
+
+/-- every ENUM VALUE DEFINITION of every enum type definition or extension: `enum A {σ⏎}` -/
+theorem span_reparse_enum_value_definition_all (fl : Flags) (s : Text) (d : Document) (h : parseText fl s = some d) :
+    ∀ x ∈ d.definitions, ∀ ev ∈ x.evdefs, ∀ a b, ev.loc = some (a, b) →
+      a ≤ b ∧ b ≤ s.length ∧
+      parseText fl (K.enum_ ++ [32, 65, 32, 123] ++ slice s a b ++ [10, 125]) =
+        some ⟨[.enumTypeDefinition none ⟨[65], some (5, 6)⟩ [] [(ev.mapLoc (locDown a)).mapLoc (locUp 8)]
+          (some (0, b - a + 4 + 6))], some (0, b - a + 4 + 6)⟩ := by
+  intro x hx ev hev a b hloc
+  obtain ⟨hs, hwf⟩ := definition_evdefs fl x ev hev
+  have hts : isTypeSystem x = true := by cases x <;> first | rfl | (simp [Definition.evdefs] at hev)
+  exact span_reparse_enum_value_definition fl (ts_flag fl s d h x hx hts) s d h x hx ev hs (hwf (wf_of_mem fl s d h x hx)) a b hloc
+
+/-- every INPUT VALUE DEFINITION (input fields, arguments of field definitions and of directive definitions): `input A {σ⏎}` -/
+theorem span_reparse_input_value_definition_all (fl : Flags) (s : Text) (d : Document) (h : parseText fl s = some d) :
+    ∀ x ∈ d.definitions, ∀ iv ∈ x.ivdefs, ∀ a b, iv.loc = some (a, b) →
+      a ≤ b ∧ b ≤ s.length ∧
+      parseText fl (K.input ++ [32, 65, 32, 123] ++ slice s a b ++ [10, 125]) =
+        some ⟨[.inputObjectTypeDefinition none ⟨[65], some (6, 7)⟩ [] [(iv.mapLoc (locDown a)).mapLoc (locUp 9)]
+          (some (0, b - a + 5 + 6))], some (0, b - a + 5 + 6)⟩ := by
+  intro x hx iv hiv a b hloc
+  obtain ⟨hs, hwf⟩ := definition_ivdefs fl x iv hiv
+  have hts : isTypeSystem x = true := by
+    cases x <;> first | rfl | (simp [Definition.ivdefs, Definition.fdefs] at hiv)
+  exact span_reparse_input_value_definition fl (ts_flag fl s d h x hx hts) s d h x hx iv hs (hwf (wf_of_mem fl s d h x hx)) a b hloc
+
 private theorem descs_ts (x : Definition) (sv : StringValue) (h : sv ∈ x.descs) : isTypeSystem x = true := by
   cases x <;> first | rfl | (simp [Definition.descs] at h)
 
@@ -144,5 +191,13 @@ example : (parseText tsFl2 tdoc2).map (fun d => d.definitions.map (fun x => x.td
     some [[some (11, 18), some (33, 35), some (39, 41)]] := by decide
 example : (parseText tsFl2 tdoc2).map (fun d => d.definitions.map (fun x => x.descs.map (·.loc))) =
     some [[some (0, 3), some (19, 22), some (25, 28)]] := by decide
+
+/-- members of `"T" type T @k(x:1){"d" f("q" a:I @m):I @n}`: the field definition (19,41), its argument definition (25,35) -/
+example : (parseText tsFl2 tdoc2).map (fun d => d.definitions.map (fun x => (x.fdefs.map (·.loc), x.ivdefs.map (·.loc)))) =
+    some [([some (19, 41)], [some (25, 35)])] := by decide
+/-- `type A {"d" f("q" a:I @m):I @n⏎}` is the type `A` with that field definition at (8,30) -/
+example : (parseText tsFl2 (K.type_ ++ [32, 65, 32, 123] ++ slice tdoc2 19 41 ++ [10, 125])).map
+    (fun d => d.definitions.map (fun x => (x.fdefs.map (·.loc), Definition.loc x))) =
+    some [([some (8, 30)], some (0, 32))] := by decide
 
 end PyGql.Props.C02
